@@ -877,10 +877,23 @@ void mmd_assign_line_type(mmd_engine * e, token * line) {
 			break;
 	}
 
-	if ((line->type == LINE_LIST_BULLETED || line->type == LINE_LIST_ENUMERATED) &&
-			line->child->type == NON_INDENT_SPACE) {
-		// Up to three spaces may precede a list marker -- they are not part of the item
-		token_remove_first_child(line);
+	if (line->child != first_child) {
+		switch (line->type) {
+			case LINE_LIST_BULLETED:
+			case LINE_LIST_ENUMERATED:
+			case LINE_ATX_1:
+			case LINE_ATX_2:
+			case LINE_ATX_3:
+			case LINE_ATX_4:
+			case LINE_ATX_5:
+			case LINE_ATX_6:
+				// Up to three spaces may precede a list or header marker -- they are not part of the text
+				token_remove_first_child(line);
+				break;
+
+			default:
+				break;
+		}
 	}
 
 	if ((line->type == LINE_PLAIN) &&
